@@ -266,7 +266,7 @@ type Input struct {
 
 // Gen draws one input. maxLen bounds its size (bytes, approximately).
 func (p *Pool) Gen(s *choice.Stream, maxLen int) Input {
-	kind := s.Pick([]int{5, 4, 3, 2, 2, 2, 1, 1, 3, 3, 3, 3, 3}, "input-kind")
+	kind := s.Pick([]int{5, 4, 3, 2, 2, 2, 1, 1, 3, 3, 3, 3, 3, 2, 1, 1}, "input-kind")
 	var desc string
 	var b []byte
 	switch kind {
@@ -467,6 +467,54 @@ func (p *Pool) Gen(s *choice.Stream, maxLen int) Input {
 		}
 		desc = fmt.Sprintf("boundary(%d of %d distinct words dropped, %d foreign known words):%s", len(drop), len(drop)+len(distinct), len(extra), d.Key())
 		b = []byte(strings.Join(kept, " ") + "\n" + strings.Join(extra, " "))
+	case 13: // edits aimed at the scoring rules: version numbers, "lesser"/"library", license names
+		d := p.Docs[s.Draw(len(p.Docs), "doc")]
+		ws := strings.Fields(string(d.Data))
+		n := 0
+		for i := 0; i < len(ws) && n < 6; i++ {
+			lw := strings.ToLower(strings.Trim(ws[i], ".,;:()\""))
+			switch {
+			case lw == "version" && i+1 < len(ws) && s.Draw(2, "rule-version") == 0:
+				ws[i+1] = []string{"1", "2", "2.1", "3", "1.1", "9"}[s.Draw(6, "rule-version-value")]
+				n++
+			case lw == "gnu" && s.Draw(2, "rule-lesser") == 0:
+				ws = append(ws[:i+1], append([]string{[]string{"lesser", "library", "affero"}[s.Draw(3, "rule-word")]}, ws[i+1:]...)...)
+				n++
+				i++
+			case (lw == "lesser" || lw == "library") && s.Draw(2, "rule-swap") == 0:
+				ws[i] = map[string]string{"lesser": "library", "library": "lesser"}[lw]
+				n++
+			case lw == "license" && s.Draw(8, "rule-name") == 0:
+				ws = append(ws[:i], append([]string{[]string{"apache", "bsd", "php", "sunpro", "imagemagick", "silicon graphics"}[s.Draw(6, "rule-name-value")]}, ws[i:]...)...)
+				n++
+				i++
+			}
+		}
+		desc = fmt.Sprintf("rule-edits(%d):%s", n, d.Key())
+		b = []byte(strings.Join(ws, " "))
+	case 14: // nothing but copyright lines, or nothing a word could start with
+		if s.Draw(2, "degenerate-kind") == 0 {
+			var sb strings.Builder
+			for i := 0; i < 1+s.Draw(5, "n-copy"); i++ {
+				fmt.Fprintf(&sb, "Copyright (c) %d Nobody %d\n", 1999+i, i)
+			}
+			desc, b = "only-copyright-lines", []byte(sb.String())
+		} else {
+			desc, b = "no-word-tokens", []byte(strings.Repeat(" \t\n-*/#", 1+s.Draw(40, "n-junk")))
+		}
+	case 15: // a large input: many documents one after the other (rarely: it is expensive)
+		var sb strings.Builder
+		size := 70000
+		if s.Draw(4, "large-really") != 0 {
+			size = 9000
+		}
+		for sb.Len() < size {
+			d := p.Docs[s.Draw(len(p.Docs), "doc")]
+			sb.Write(d.Data)
+			sb.WriteString("\n" + OOV(s, 6) + "\n")
+		}
+		desc = fmt.Sprintf("large(%d bytes)", sb.Len())
+		b = []byte(sb.String())
 	case 7: // hyphenated line ends and CRLF
 		sc := p.Scenarios[s.Draw(len(p.Scenarios), "scenario")]
 		txt := string(sc.Data)
